@@ -61,11 +61,17 @@ nested_value = st.one_of(
 tuple_value = st.fixed_dictionaries({"__t": st.tuples(st.sampled_from(["v1", 7]), st.lists(st.integers(0, 3), max_size=2)).map(list)})
 
 
+# {"__s": [...]} is turned into a *set* (what merge_duplicate_edges(merge_rule="union") stores as attribute values)
+set_value = st.fixed_dictionaries({"__s": st.lists(st.sampled_from(["blue", "red", 1, 2]), max_size=3, unique_by=repr)})
+
+
 def realise(v):
-    """JSON attribute value -> Python value ({"__t": [...]} becomes a tuple)"""
+    """JSON attribute value -> Python value ({"__t": [...]} becomes a tuple, {"__s": [...]} a set)"""
     if isinstance(v, dict):
         if set(v) == {"__t"}:
             return tuple(realise(x) for x in v["__t"])
+        if set(v) == {"__s"}:
+            return set(v["__s"])
         return {k: realise(x) for k, x in v.items()}
     if isinstance(v, list):
         return [realise(x) for x in v]
@@ -75,7 +81,7 @@ def realise(v):
 def attrs(max_size=2, nested=False, tuples=False):
     v = attr_value
     if nested:
-        v = st.one_of(nested_value, nested_value, tuple_value) if tuples else nested_value
+        v = st.one_of(nested_value, nested_value, tuple_value, set_value) if tuples else nested_value
     return st.dictionaries(st.sampled_from(ATTR_NAMES), v, max_size=max_size)
 
 
@@ -470,6 +476,7 @@ def net_spec(
     orderable_ids=False,
     tuples=False,
     wide_labels=False,
+    float_ids=False,
 ):
     cls = cls or draw(st.sampled_from(["H", "DH", "SC"]))
     kind = kind or draw((spec_kinds if wide_labels == "mixed" else spec_kinds_unmixed) if wide_labels else kinds)
@@ -485,6 +492,8 @@ def net_spec(
     scheme = ids or draw(st.sampled_from(["auto", "auto", "perm", "gap", "str", "mixed", "zero-desc"]))
     if orderable_ids and scheme == "mixed":
         scheme = "gap"
+    if float_ids and ids is None and draw(st.integers(0, 5)) == 0:
+        scheme = "float"  # integer-valued floats: the same dict keys as the ints, but not instances of int
     if scheme == "auto":
         eids = [None] * k
     elif scheme == "perm":
@@ -493,6 +502,8 @@ def net_spec(
         eids = draw(st.lists(st.integers(0, 30), min_size=k, max_size=k, unique=True))
     elif scheme == "str":
         eids = draw(st.lists(st.sampled_from(["x", "y", "e1", "e2", "e10", "3", "0", "k", "m", "q"]), min_size=k, max_size=k, unique=True))
+    elif scheme == "float":
+        eids = [float(i) for i in draw(st.permutations(list(range(k))))]
     elif scheme == "zero-desc":
         eids = sorted(draw(st.lists(st.integers(0, 12), min_size=k, max_size=k, unique=True)), reverse=True)
     else:
@@ -529,6 +540,9 @@ def awkward_attr_names(H):
         H.set_node_attributes({ns[0]: {"node": 1, "idx": "i", "attr": 2}})
     if es:
         H.set_edge_attributes({es[-1]: {"members": 1, "idx": "i", "edge": 2, "id": 3}})
+    # network attributes named like constructor parameters
+    H["incoming_data"] = None
+    H["attr"] = 1
 
 
 def build(spec):
